@@ -919,6 +919,8 @@ def _merge_fails(results, replay_fn):
         # `also`: every failing case of the key in enumeration order (jobs are numbered in enumeration order)
         also = [dict(c, fid=fid, clause=clause) for _, lst in sorted(parts.get((fid, clause), []), key=lambda p: p[0])
                 for c in lst][:ALSO_CAP]
+        if case not in also:      # the reported (smallest) case is always in the list
+            also = [case] + also[:ALSO_CAP - 1]
         fails.append({'fid': fid, 'clause': clause, 'detail': detail, 'case': case,
                       'replay_fn': replay_fn, 'also': also})
     return cases, nontrivial, fails
@@ -2494,13 +2496,13 @@ def _wf_cases(tier):
             perms = list(itertools.permutations(range(n)))
             for perm in perms:
                 ident = list(perm) == list(range(n))
-                for names in DAG_NAMES:
+                for names in (DAG_NAMES if n <= 4 else DAG_NAMES[:3]):
                     for po in ('asc', 'desc'):
                         yield {'kind': 'dag', 'n': n, 'edges': edges, 'perm': list(perm), 'names': names,
                                'pred_order': po, 'variant': 'late_edges', 'real_run': ident and po == 'asc'}
                     yield {'kind': 'dag', 'n': n, 'edges': edges, 'perm': list(perm), 'names': names,
                            'pred_order': 'asc', 'variant': 'init'}
-            for names in DAG_NAMES:
+            for names in (DAG_NAMES if n <= 4 else DAG_NAMES[:3]):
                 for po in ('asc', 'desc'):
                     yield {'kind': 'dag', 'n': n, 'edges': edges, 'perm': list(range(n)), 'names': names,
                            'pred_order': po, 'variant': 'topo'}
@@ -2589,7 +2591,8 @@ def bounded_workflows(tier):
     bound = (f'every DAG with <={N} tasks and one sink (edges i<j), tasks entering in every order, '
              f'distinct tasks, tasks with the '
              f'same name and function, and replicates (distinct Task objects equal in name, function and '
-             f'static input: all tasks, two classes of them, without static input), predecessor lists in both '
+             f'static input: all tasks, two classes of them, without static input'
+             f'{"" if quick else "; with 5 tasks only the first kind"}), predecessor lists in both '
              f'orders, three ways of building; '
              f'replace_task of every task (also among replicates, by one more replicate); + of every split at '
              f'every task (distinct tasks and replicates); insert_workflow of every pair '
